@@ -64,7 +64,13 @@ pub fn op_json(op: &WOp) -> Value {
             v["k"] = json!(k); v["width"] = json!(*width as i64); v["unknown"] = json!(*unknown); v
         }
         WOp::WriteRaw { id, data } => json!({"k":"write_raw","kind":"raw","id":b(&id.to_be_bytes()),"ty":"raw","val":b(data),"kids":[],"width":0,"unknown":false}),
-        WOp::StartUnknownDeprecated { tag } => { let mut v = tag_json(tag); v["k"] = json!("start_unknown_dep"); v["width"] = json!(0); v["unknown"] = json!(true); v }
+        WOp::StartUnknownDeprecated { tag } => {
+            // the deprecated call is the option-based call: for a Start it keeps its own name (C09 compares the two), for
+            // any other variant it is recorded as that variant with the unknown-size option ("dep" marks the entry point)
+            let mut v = tag_json(tag);
+            let k = match v["kind"].as_str().unwrap() { "start" => "start_unknown_dep", "raw" => "rawtag", x => x }.to_string();
+            v["k"] = json!(k); v["width"] = json!(0); v["unknown"] = json!(true); v["dep"] = json!(true); v
+        }
         WOp::Flush => json!({"k":"flush","kind":"","id":[],"ty":"","val":[],"kids":[],"width":0,"unknown":false}),
         WOp::IntoInner => json!({"k":"into_inner","kind":"","id":[],"ty":"","val":[],"kids":[],"width":0,"unknown":false}),
     }
